@@ -253,7 +253,12 @@ impl SchemaDoc {
                     } else {
                         format!(" implements {}", implements.join(" & "))
                     };
-                    o.push_str(&format!("extend type {}{} {{\n{}}}\n\n", name, imp, sdl_fields(fields)));
+                    if fields.is_empty() {
+                        // an extension that only adds interfaces has no field block at all
+                        o.push_str(&format!("extend type {}{}\n\n", name, imp));
+                    } else {
+                        o.push_str(&format!("extend type {}{} {{\n{}}}\n\n", name, imp, sdl_fields(fields)));
+                    }
                 }
                 TypeDef::Interface { name, fields } => {
                     o.push_str(&format!("interface {} {{\n{}}}\n\n", name, sdl_fields(fields)));
